@@ -7,6 +7,10 @@
                    backslash chosen from ELISP_ESCAPE_CHARS) is read back as itself by parse_elisp_char
   R-HASH-TOKENS    every `#` token the printer has a constant for is dispatched to the right token kind
   R-OCTAL          the unibyte-string printer's digit table is "01234567" on the indices it uses
+  R-NULL-TEXT      the empty list is printed as `()` under every printer option value (only Nil and booleans
+                   are subject to the documented nil/t folding)
+  R-RESCAN         with leading-digit symbols every digit-initial token is offered to the numeric sub-parser
+                   unconditionally (no textual pre-filter decides between number and symbol)
 Not decided: the option cross product as behaviour, nil/t folding, values.
 """
 from .. import roundtrip
@@ -35,6 +39,8 @@ def run(ctx):
         r3.floor("printable", n)
     r4 = ctx.rule("R-HASH-TOKENS", "the printer's `#` tokens are dispatched by parse_token to the matching token kind")
     roundtrip.hash_tokens(r4, lexpr)
+    null_text(ctx, lexpr)
+    rescan(ctx, lexpr)
     r5 = ctx.rule("R-OCTAL", "octal digit table of the unibyte string printer")
     oc = lexpr.static_bytes("<print::CustomizedFormatter as print::Formatter>::write_bytes::OCTAL_CHARS")
     if oc is None:
@@ -43,3 +49,96 @@ def run(ctx):
         r5.ok("OCTAL_CHARS[0..8] == \"01234567\"")
     else:
         r5.violation("print::OCTAL_CHARS", "octal-table", "OCTAL_CHARS[0..8] is %r" % bytes(oc[:8]))
+
+
+def null_text(ctx, lexpr):
+    from .. import sim
+    from ..sim import Adt, Bytes
+    r = ctx.rule("R-NULL-TEXT", "the empty list is printed as `()` under every printer option value")
+    fns = [lexpr.fn("print::Formatter::write_null"),
+           lexpr.fn("<print::CustomizedFormatter as print::Formatter>::write_null")]
+    opts = lexpr.adts.get("print::Options")
+    if fns[0] is None or not opts:
+        r.anchor_missing("print::Formatter::write_null / print::Options")
+        return
+    fields = opts["variants"][0]["fields"]
+    n = 0
+    for f in fns:
+        if f is None:
+            continue
+        # vary each enum-typed option field over all its variants (others symbolic)
+        combos = [{}]
+        for fld in fields:
+            a = lexpr.adts.get(fld["ty"])
+            if a and a["kind"] == "enum":
+                for v in a["variants"]:
+                    combos.append({fld["name"]: Adt(fld["ty"], v["idx"], [], v["name"])})
+        for combo in combos:
+            def opaque(o, combo=combo):
+                for k, v in combo.items():
+                    if k in o.path and "options" in o.path:
+                        return v
+                return None
+            S = sim.Sim([lexpr], hooks={"opaque": opaque}, inline=lambda a, b: b.file.endswith("print.rs") and "write_" in b.path)
+            texts = set()
+            for p in S.run(f):
+                if p.end != "return":
+                    continue
+                for ev in p.calls("std::io::Write::write_all"):
+                    a = ev[6][1]
+                    texts.add(bytes(a.b) if isinstance(a, Bytes) else None)
+            n += 1
+            desc = ", ".join("%s=%s" % (k, v.vname) for k, v in combo.items()) or "symbolic options"
+            if texts == {b"()"}:
+                r.ok("%s (%s) writes `()`" % (f.path.rsplit("::", 1)[1] + ("@custom" if "Customized" in f.path else "@default"), desc), f)
+            else:
+                r.violation(f.path, "null-text:%s" % desc,
+                            "the empty list is printed as %s under %s; it must always be `()` - only the special nil "
+                            "value and booleans are folded into nil/t" % (sorted(texts, key=repr), desc), f.loc())
+    r.floor("cases", n)
+
+
+def rescan(ctx, lexpr):
+    from .. import cfg, common, facts as F
+    r = ctx.rule("R-RESCAN", "on the leading-digit path the token goes to the numeric sub-parser unconditionally")
+    f = lexpr.fn("parse::Parser::<R>::parse_token")
+    if f is None:
+        r.anchor_missing("parse_token")
+        return
+    subs = [bi for bi, t in f.calls() if t["callee"].get("path", "").endswith("Parser::<parse::read::SliceRead<'a>>::from_slice_custom")
+            or t["callee"].get("path", "").endswith("from_slice_custom")]
+    if not subs:
+        r.anchor_missing("sub-parser construction (Parser::from_slice_custom) in parse_token")
+        return
+    for sb in subs:
+        # walk back from the sub-parser construction to the parse_symbol call that produced the token text:
+        # no data-dependent branch (switch) other than the `?` on parse_symbol may lie in between
+        idom = cfg.dominators(f)
+        chain = cfg.dom_set(idom, sb)
+        sym = None
+        for d in chain:
+            t = f.blocks[d]["term"]
+            if t["k"] == "call" and t["callee"].get("path", "").endswith("Parser::<R>::parse_symbol"):
+                sym = d
+                break
+        if sym is None:
+            r.violation(f.path, "rescan-source", "the numeric sub-parser is not fed from parse_symbol()", f.loc())
+            continue
+        between = [d for d in chain if d != sb and cfg.dominates(idom, sym, d) and d != sym]
+        switches = []
+        for d in between:
+            t = f.blocks[d]["term"]
+            if t["k"] == "switch":
+                # the `?` desugaring switches on a ControlFlow discriminant right after Try::branch
+                prev = [p for p in f.pred_map()[d]]
+                is_try = any(f.blocks[p]["term"]["k"] == "call" and "std::ops::Try::branch" in F.callee_names(f.blocks[p]["term"]) for p in prev)
+                if not is_try:
+                    switches.append(f.blocks[d]["term"].get("line"))
+        if switches:
+            r.violation(f.path, "rescan-prefilter",
+                        "between reading the digit-initial token and handing it to the numeric sub-parser, parse_token "
+                        "branches on the token (line %s): a textual pre-filter can send a valid literal (e.g. `1e-7`) to "
+                        "the symbol arm" % switches, f.loc(switches[0]))
+        else:
+            r.ok("the token read by parse_symbol() reaches Parser::from_slice_custom without a data-dependent branch", f,
+                 f.blocks[sb]["term"].get("line"))
